@@ -99,6 +99,18 @@ def _validate(ctx, name, cases, nchunks, tag):
     return acc, rej
 
 
+def _drift_sample(tpath, name, i):
+    """A bounded sample of the re-recorded cases of one REPLAY chunk (every chunk of every bounded model contributes):
+    the cases with the most segments (where the spacing law bites) plus the first few."""
+    cs = [("%s_%d_%s" % (name, i, cid), evs) for (cid, evs) in _split_cases(C.read_ndjson(tpath))]
+
+    def nsegs(c):
+        return max([len(l) for e in c[1] if e["ev"] == "segs" for l in e["lens"]] or [0])
+    top = sorted(cs, key=nsegs, reverse=True)[:6]
+    ids = set(c[0] for c in top)
+    return top + [c for c in cs if c[0] not in ids][:4]
+
+
 def _sig_of(rej):
     e = rej.get("event") or {}
     return {"kind": "trace", "ev": e.get("ev"), "variant": e.get("variant")}
@@ -185,15 +197,7 @@ def run(ctx):
             nviol += 1
         if res["drift"]:
             drift_total += res["drift"]
-            # a bounded sample from EVERY chunk of EVERY bounded model: the cases with the most segments (where the
-            # spacing law bites) plus the first few
-            cs = [("%s_%d_%s" % (name, i, cid), evs) for (cid, evs) in _split_cases(C.read_ndjson(tpath))]
-
-            def nsegs(c):
-                return max([len(l) for e in c[1] if e["ev"] == "segs" for l in e["lens"]] or [0])
-            top = sorted(cs, key=nsegs, reverse=True)[:6]
-            ids = set(c[0] for c in top)
-            drift_cases += top + [c for c in cs if c[0] not in ids][:4]
+            drift_cases += _drift_sample(tpath, name, i)
             if res["drift_samples"]:
                 ctx.sample({"drift_sample": res["drift_samples"][:1]})
     if drift_total:
